@@ -169,3 +169,18 @@ Definition wf_ifa (i : ifa) : bool :=
 (* =========================================================== memory safety of the model *)
 Definition in_bounds (size : nat) (ws : list cwrite) : Prop := Forall (fun w => (fst w < size)%nat) ws.
 Definition is_ub (r : cres) : bool := match r with CUB _ => true | _ => false end.
+
+(* =========================================================== thread safety *)
+(* libc functions that return a pointer into static storage (shared by all threads of the process) *)
+Definition static_storage_fns : list string :=
+  ["getmntent"; "getutent"; "getutid"; "getutline"; "getutxent"; "getutxid"; "getutxline"; "getpwuid"; "getpwnam"; "getpwent";
+   "getgrgid"; "getgrnam"; "getgrent"; "inet_ntoa"; "strerror"; "ctime"; "asctime"; "localtime"; "gmtime"; "ttyname"; "getlogin";
+   "readdir"; "strtok"; "gethostbyname"; "gethostbyaddr"; "getservbyname"; "getservbyport"; "getprotobyname"; "getprotobynumber";
+   "ether_ntoa"; "ether_aton"; "ptsname"; "tmpnam"; "getenv"; "dlerror"; "gai_strerror"]%string.
+Definition mem_str (x : string) (l : list string) : bool := existsb (String.eqb x) l.
+(* variables of static storage duration the extension may have: the two module tables handed to the interpreter at
+   import, and the debug flag written by set_debug() only *)
+Definition allowed_statics : list string := ["mod_methods"; "moduledef"; "PSUTIL_DEBUG"]%string.
+(* what each thread must get: the entries of ITS file *)
+Definition thr_consistent (files : list (list ment)) (s : tsys) : Prop :=
+  Forall2 (fun f t => th_out t ++ th_rest t = f) files (ts_threads s).
